@@ -155,6 +155,9 @@ def phase_trees(chk, V, n):
         obs.append(o)
         errs.append(e)
     jres = judge([(l, c, g, t, o) for (l, c, g, t), o in zip(cases, obs)])
+    if chk.tier == 'thorough':
+        step = max(1, len(cases) // 600)
+        crosscheck(chk, [(l, c, g, t, j[3]) for (l, c, g, t), j in list(zip(cases, jres))[::step]])
     for k, ((l, c, g, t), i, m, o, e, (dom, known, good, erase)) in enumerate(zip(cases, ires, mres, obs, errs, jres)):
         ci, cm = canon_impl(i), canon_model(m)
         payload = {'phase': 'trees', 'lang': l, 'cfg': c, 'generics': g, 'type': t, 'rust': T.rust_name(t), 'impl': ci, 'model': cm,
@@ -223,6 +226,62 @@ def phase_front(chk, V, n):
                what='RustType::try_from does not yield the structural denotation of the source type (containers, vanishing wrappers / references / qualification, argument order)')
         if k % 499 == 0:
             chk.sample({'source_type': src, 'ir': T.rust_name(t)})
+
+
+
+# ---------------------------------------------------------------------------------------------- thorough: extraction cross-check
+LANG_COQ = {'typescript': 'TypeScript', 'kotlin': 'Kotlin', 'swift': 'Swift', 'scala': 'Scala', 'go': 'Go', 'python': 'Python'}
+
+
+def coq_str(s):
+    return vf.coq_lit_str(s) if s else '(@nil N)'
+
+
+def coq_rtype(t):
+    k = t['k']
+    if k == 'simple':
+        return f'(RSimple {coq_str(t["id"])})'
+    if k == 'generic':
+        return f'(RGeneric {coq_str(t["id"])} [{"; ".join(coq_rtype(p) for p in t["params"])}])'
+    n, ps = t['name'], t['params']
+    if n == 'Vec':
+        return f'(RVec {coq_rtype(ps[0])})'
+    if n == 'Array':
+        return f'(RArray {coq_rtype(ps[0])} {t["len"]}%N)'
+    if n == 'Slice':
+        return f'(RSlice {coq_rtype(ps[0])})'
+    if n == 'HashMap':
+        return f'(RHashMap {coq_rtype(ps[0])} {coq_rtype(ps[1])})'
+    if n == 'Option':
+        return f'(ROption {coq_rtype(ps[0])})'
+    return f'(RPrim P{n})'
+
+
+def coq_tree(x):
+    k = x[0]
+    if k == 'name':
+        return f'(XName {coq_str(x[1])} [{"; ".join(coq_tree(a) for a in x[2])}])'
+    if k == 'seq':
+        return f'(XSeq {coq_tree(x[1])})'
+    if k == 'fixed':
+        return f'(XFixed [{"; ".join(coq_tree(a) for a in x[1])}])'
+    if k == 'map':
+        return f'(XMap {coq_tree(x[1])} {coq_tree(x[2])})'
+    return f'(XOpt {coq_tree(x[1])})'
+
+
+def coq_cfg(c):
+    m = '; '.join(f'({coq_str(k)}, {coq_str(v)})' for k, v in sorted((c.get('type_mappings') or {}).items()))
+    return f'{{| c05_m := [{m}]; c05_pre := {coq_str(c.get("prefix", ""))}; c05_nps := {"true" if c.get("no_pointer_slice") else "false"} |}}'
+
+
+def crosscheck(chk, samples):
+    """re-evaluate the spec inside Coq (vm_compute) on a sample of the cases the EXTRACTED spec judged"""
+    eqs = [f'c05_norm (c05_erase {LANG_COQ[l]} {coq_cfg(c)} [{"; ".join(coq_str(x) for x in g)}] {coq_rtype(t)}) = {coq_tree(e)}' for l, c, g, t, e in samples]
+    bad = vf.coq_check_equalities('From Coq Require Import List NArith.\nFrom TS Require Import Model.Str Model.Types Model.Lang.Decl Spec.C05Spec.\nImport ListNotations.', eqs, shard=100)
+    chk.count('coq_crosscheck_equalities', len(eqs))
+    for b in bad:
+        chk.violation('extraction-crosscheck', {'failure': b}, 'the extracted c05_erase and its evaluation inside Coq disagree (extraction / driver defect)', no_input=True)
 
 
 def run(chk):
